@@ -174,7 +174,7 @@ func getAsync(c *Ctx) {
 	ccs := P.CallsTo(g.fn, "CombineContext")
 	if g.need(ccs, "PROV", "CombineContext") {
 		cc := ccs[0]
-		g.add("PROV", "WaitCond waits under the combined context", callArg(wc, 0) == ssa.Value(cc.(*ssa.Call)), "first argument of WaitCond is CombineContext(...)", wc)
+		g.add("PROV", "WaitCond waits under the combined context", srcIs(P, callArg(wc, 0), cc.(*ssa.Call)) && len(P.Sources(callArg(wc, 0))) == 1, "first argument of WaitCond is CombineContext(...)", wc)
 		ctxOK := false
 		for _, s := range P.Sources(callArg(cc, 0)) {
 			if prm, ok := s.(*ssa.Parameter); ok && prm.Parent() == q.fn && prm == q.fn.Params[1] {
